@@ -29,7 +29,8 @@ PAIRS = [(a, b) for a in MVALS for b in MVALS if a <= b]
 
 DIMS_M0 = ["mm", "mA", "mHp", "sba", "tb", "l6", "l7", "m122", "yt", "ckm",
            "zu", "zd", "zl", "Du", "Dd", "Dl", "Pu", "Pd", "Pl"]
-DIMS_M = DIMS_M0 + T.SM_DIMS        # + SM input: MW, MZ, alpha_em(MZ), alpha_s, nine fermion masses, m_hSM
+CFG_DIMS = ["run", "force"]         # thdm::Config: running_couplings, force_output
+DIMS_M = DIMS_M0 + T.SM_DIMS + CFG_DIMS   # + SM input (MW, MZ, alpha_em(MZ), alpha_s, nine fermion masses, m_hSM) + configuration
 ALPHA_M = {
     "mm": PAIRS, "mA": [10.0, 300.0, 1e4], "mHp": [10.0, 300.0, 1e4],
     "sba": [-1.0, -0.9, -0.3, 0.0, 0.3, 0.7, 0.995, 1.0],
@@ -42,6 +43,7 @@ ALPHA_M = {
     "Pu": T.MAT_NAMES, "Pd": T.MAT_NAMES, "Pl": T.MAT_NAMES,
 }
 ALPHA_M.update(T.SM_ALPHA)
+ALPHA_M.update({"run": [1, 0], "force": [0, 1]})
 BASES_M = [
     dict(mm=(125.0, 400.0), mA=300.0, mHp=300.0, sba=0.995, tb=3.0, l6=0.0, l7=0.0, m122=4e4, yt=2, ckm=1,
          zu=0.0, zd=0.0, zl=0.0, Du="0", Dd="0", Dl="0", Pu="0", Pd="0", Pl="0"),
@@ -60,7 +62,7 @@ BASES_M = [
 LAMS = [-2.0, -0.5, 0.0, 0.5, 2.0]
 DIMS_G0 = ["l1", "l2", "l3", "l4", "l5", "l6", "l7", "tb", "m122", "yt", "ckm",
            "zu", "zd", "zl", "Du", "Dd", "Dl", "Pu", "Pd", "Pl"]
-DIMS_G = DIMS_G0 + T.SM_DIMS
+DIMS_G = DIMS_G0 + T.SM_DIMS + CFG_DIMS
 ALPHA_G = dict(ALPHA_M)
 ALPHA_G.update({"l%d" % i: LAMS for i in range(1, 8)})
 ALPHA_G["m122"] = [-1e4, 0.0, 4e4, 1e6]
@@ -77,8 +79,10 @@ BASES_G = [
 SM_ALT_BASE = dict(T.SM_ALT, mhsm=150.0)
 for _i, _b in enumerate(BASES_M):
     _b.update(SM_ALT_BASE if _i in (1, 4) else T.SM_BASE)
+    _b.update(run=0 if _i == 3 else 1, force=1 if _i == 2 else 0)
 for _i, _b in enumerate(BASES_G):
     _b.update(SM_ALT_BASE if _i == 1 else T.SM_BASE)
+    _b.update(run=0 if _i == 2 else 1, force=1 if _i == 1 else 0)
 
 
 def to_case(a, basis):
@@ -86,7 +90,7 @@ def to_case(a, basis):
         p = [a["mm"][0], a["mm"][1], a["mA"], a["mHp"], a["sba"], a["l6"], a["l7"], a["tb"], a["m122"]]
     else:
         p = [a["l%d" % i] for i in range(1, 8)] + [a["tb"], a["m122"]]
-    return T.case(basis, p, ytype=a["yt"], run=1, ckm=a["ckm"], z=(a["zu"], a["zd"], a["zl"]),
+    return T.case(basis, p, ytype=a["yt"], run=a.get("run", 1), force=a.get("force", 0), ckm=a["ckm"], z=(a["zu"], a["zd"], a["zl"]),
                   D=(a["Du"], a["Dd"], a["Dl"]), P=(a["Pu"], a["Pd"], a["Pl"]), sm=T.sm_from(a), mhsm=a.get("mhsm"))
 
 
@@ -259,8 +263,164 @@ def gauge_input_from(S):
     return list(S[T.LAM]) + [S[T.TB], S[T.M122]]
 
 
+STALE = "state:set_tan_beta:stale-higgs-sector"
+
+
+def state_items(d):
+    """(case as constructed, [variants with a set_tan_beta sequence]) for all assignments with <= d deviations from the base points"""
+    for basis, dims, alpha, bases in (("M", DIMS_M, ALPHA_M, BASES_M), ("G", DIMS_G, ALPHA_G, BASES_G)):
+        seen = set()
+        for b in bases:
+            for a, combo in T.devprod(dims, b, alpha, d):
+                vals = tuple(a[k] for k in dims)
+                if vals in seen:
+                    continue
+                seen.add(vals)
+                yield (basis, vals)
+
+
+def evaluate_state(chunk):
+    """object state: THDM::set_tan_beta is the only public mutator.  After set_tan_beta(tb') the object must report
+    tan(beta) = tb', v, MW, MZ, alpha_em and the fermion masses of its SM input (the original only changes v1, v2), the
+    Higgs masses and the stored lambda_6/7, m12^2 it was constructed with, nothing non-finite; set_tan_beta(construction
+    value) and tb -> tb' -> tb must leave it bitwise as constructed.  What the original does NOT keep consistent (the
+    Higgs sector is not re-solved: sin(beta-alpha) mixes the new beta with the old alpha_h, the reported lambda_i no
+    longer reproduce the reported spectrum, the Goldstone row is the old (cos beta, sin beta)) is reported under its own key."""
+    out = dict(n=0, evals=0, fails=[], worst={}, keys=set(), stale={}, skipped=0)
+    fam = []
+    for item in chunk:
+        c0 = from_compact(item) if isinstance(item, tuple) else item
+        tb = c0["p"][7]
+        seqs = [(0.5 * tb,), (2.0 * tb,), (1.0 / tb,), (tb,), (0.5 * tb, tb)]
+        fam.append([c0] + [dict(c0, post=list(s_)) for s_ in seqs])
+    flat = [c for f in fam for c in f]
+    res = T.run_cases(flat, "S")
+    out["evals"] += len(flat)
+    # rebuild in the gauge basis from what the mutated object reports
+    reb, ridx = [], []
+    k = 0
+    for f in fam:
+        rs = res[k:k + len(f)]
+        for j in (1, 2, 3):
+            if not rs[j].exc and not nonfinite(rs[j].S):
+                ridx.append(k + j)
+                reb.append(dict(with_basis(f[j], "G", gauge_input_from(rs[j].S)), post=[]))
+        k += len(f)
+    rres = dict(zip(ridx, T.run_cases(reb, "S"))) if reb else {}
+    out["evals"] += len(reb)
+    k = 0
+    for f in fam:
+        rs = res[k:k + len(f)]
+        base_k = k
+        k += len(f)
+        c0, r0 = f[0], rs[0]
+        if r0.exc:
+            out["skipped"] += 1
+            # a refusal at construction must not depend on a later call; every variant is refused as well
+            for c, r in zip(f[1:], rs[1:]):
+                if (r.exc or None) != r0.exc:
+                    out["fails"].append(("%s:state:outcome" % c0["basis"], "constructed: %r, with set_tan_beta sequence: %r; %s" % (r0.exc, r.exc, brief(c)), {"case": c}))
+            continue
+        S0 = r0.S
+        bs = c0["basis"]
+        m2 = [x * x for x in (S0[T.MHH0], S0[T.MHH1], S0[T.MAH1], S0[T.MHM1], S0[T.SM_MW], S0[T.SM_MZ])]
+        m2max, m2pos = max(m2), [x for x in m2 if x > 0]
+        m2min = min(m2pos)
+        for j, (c, r) in enumerate(zip(f[1:], rs[1:]), start=1):
+            out["n"] += 1
+            if r.exc:
+                out["fails"].append(("%s:state:set_tan_beta:throws" % bs, "construction succeeds but the variant is refused: %r; %s" % (r.exc, brief(c)), {"case": c}))
+                continue
+            if j >= 4:
+                # no-op / there-and-back: bitwise
+                if r.raw["S"] != r0.raw["S"]:
+                    idx = [q for q in range(len(S0)) if S0[q].hex() != r.S[q].hex()]
+                    out["fails"].append(("%s:state:set_tan_beta:%s-not-bitwise" % (bs, "noop" if j == 4 else "there-and-back"),
+                                         "object differs from the constructed one in %s: %r -> %r; %s"
+                                         % ([FIELD.get(q, "S[%d]" % q) for q in idx[:5]], [S0[q] for q in idx[:3]], [r.S[q] for q in idx[:3]], brief(c)), {"case": c}))
+                continue
+            S = r.S
+            nf = nonfinite(S)
+            if nf:
+                out["fails"].append(("%s:state:nonfinite:%s" % (bs, nf[0]), "after set_tan_beta the model reports non-finite %s; %s" % (", ".join(nf), brief(c)), {"case": c}))
+                continue
+            tbf = c["post"][-1]
+            acc = Acc()
+            tag = bs + ":state"
+            acc.cmp("state", tag + ":tan_beta", abs(S[T.TB] - tbf), 1e-13 * tbf, "set_tan_beta(%r) but tan(beta) reported %r" % (tbf, S[T.TB]))
+            # SM-derived quantities and Goldstone masses, fermions, CKM: as for a freshly constructed model;
+            # the Goldstone *direction* refers to the stale mixing matrices and is classified below
+            acc2 = Acc()
+            check_common(acc2, c, S, tag, m2max, m2min)
+            for key, what in acc2.fails:
+                if "goldstone-direction" in key:
+                    out["stale"]["goldstone-direction"] = out["stale"].get("goldstone-direction", 0) + 1      # observation only
+                else:
+                    acc.fails.append((key, what))
+            for cls, v in acc2.worst.items():
+                if cls != "goldstone":
+                    acc.worst[cls] = max(acc.worst.get(cls, 0.0), v)
+            # Higgs masses and stored parameters: those of the constructed object
+            cmp_masses(acc, tag, (S0[T.MHH0], S0[T.MHH1], S0[T.MAH1], S0[T.MHM1]), S, m2max, "of the constructed object")
+            for q in range(7):
+                acc.cmp("stored", tag + ":lambda%d" % (q + 1), abs(S[T.LAM][q] - S0[T.LAM][q]), 0.0, "lambda_%d constructed %r, after set_tan_beta %r" % (q + 1, S0[T.LAM][q], S[T.LAM][q]))
+            acc.cmp("stored", tag + ":m122", abs(S[T.M122] - S0[T.M122]), 0.0, "m12^2 constructed %r, after set_tan_beta %r" % (S0[T.M122], S[T.M122]))
+            # --- what the original does not keep consistent -------------------------------------------------
+            # set_tan_beta() only replaces v1, v2; the Higgs sector is not re-solved.  C08 speaks about a
+            # CONSTRUCTED model and says nothing about the state after set_tan_beta(tb' != tb), so the three
+            # inconsistencies below are counted and reported in the evidence (state_stale_higgs_sector_observations)
+            # but are not violations of C08 (integrator's decision; DESIGN.md 7.1).
+            mh, mH = S0[T.MHH0], S0[T.MHH1]
+            if bs == "M" and c0["p"][0] != c0["p"][1]:
+                Rr = m2max / m2min
+                tol = angle_tol(c0["p"][0], c0["p"][1], Rr)
+                err = abs(S[T.SBA] - c0["p"][4])
+                if abs(S[T.CBA]) < 1e-7:
+                    err = min(err, abs(-S[T.SBA] - c0["p"][4]))
+                if not (err <= tol):
+                    out["stale"]["sba"] = out["stale"].get("sba", 0) + 1      # observation only
+            rr = rres.get(base_k + j)
+            if rr is not None:
+                bad = None
+                if rr.exc:
+                    bad = "gauge-basis model built from the reported lambda_1..7, tan(beta), m12^2 is refused: %s %s" % rr.exc
+                else:
+                    for nm, q in (("mh", T.MHH0), ("mH", T.MHH1), ("mA", T.MAH1), ("mHp", T.MHM1)):
+                        if not (abs(rr.S[q] ** 2 - S[q] ** 2) <= 2 * TOL * max(m2max, rr.S[T.MHH1] ** 2, rr.S[T.MAH1] ** 2, rr.S[T.MHM1] ** 2)):
+                            bad = "%s reported %r, but the reported lambda_1..7, tan(beta) = %r, m12^2 give %r" % (nm, S[q], S[T.TB], rr.S[q])
+                            break
+                if bad:
+                    out["stale"]["rebuild"] = out["stale"].get("rebuild", 0) + 1      # observation only
+            for cls, v in acc.worst.items():
+                out["worst"]["state:" + cls] = max(out["worst"].get("state:" + cls, 0.0), v)
+            seen_ = set()
+            for key, what in acc.fails:
+                if key not in seen_:
+                    seen_.add(key)
+                    out["fails"].append((key, what + "; " + brief(c), {"case": c}))
+            out["keys"].add((bs, "state", c["ytype"], (tbf > c0["p"][7]) - (tbf < c0["p"][7]), c.get("force", 0)))
+    return out
+
+
 def evaluate_compact(chunk):
     return evaluate_points([from_compact(it) for it in chunk])
+
+
+FIELD = {0: "Mhh(0)", 1: "Mhh(1)", 2: "MAh(0)", 3: "MAh(1)", 4: "MHm(0)", 5: "MHm(1)", 6: "sin(beta-alpha)", 7: "cos(beta-alpha)",
+         8: "tan_beta", 16: "m122", 17: "MVWm", 18: "MVZ", 31: "alpha_h", 32: "beta", 33: "v", 94: "alpha_em"}
+for _j in range(7):
+    FIELD[9 + _j] = "lambda%d" % (_j + 1)
+for _j in range(3):
+    FIELD[19 + _j], FIELD[22 + _j], FIELD[25 + _j], FIELD[28 + _j] = "MFu(%d)" % _j, "MFd(%d)" % _j, "MFe(%d)" % _j, "MFv(%d)" % _j
+for _j in range(34, 38):
+    FIELD[_j] = "ZA/ZP"
+for _j in range(38, 56):
+    FIELD[_j] = "quark-mixing"
+
+
+def nonfinite(S):
+    """names of reported quantities that are NaN or infinite"""
+    return sorted(set(FIELD.get(j, "S[%d]" % j) for j in range(56) if not math.isfinite(S[j])) | (set() if math.isfinite(S[94]) else {"alpha_em"}))
 
 
 def evaluate_points(cases, history=True):
@@ -280,7 +440,7 @@ def evaluate_points(cases, history=True):
     c3 = [with_basis(cases[alive[k]], "M", mass_input_from(r2[k].S)) for k in idx3]
     r3 = dict(zip(idx3, T.run_cases(c3, "S"))) if c3 else {}
 
-    out = dict(n=len(cases), thrown=0, illcond=0, massless_tachyon=0, fails=[], worst={}, keys=set(), exc={},
+    out = dict(n=len(cases), thrown=0, illcond=0, massless_tachyon=0, forced_reruns=0, forced_problem=0, fails=[], worst={}, keys=set(), exc={},
                passes=len(cases) * (2 if history and len(cases) > 1 else 1) + len(c2) + len(c3), smsets=set())
     for i, what in hist:
         # replay data: the case plus a case of the same process with a different SM input (or simply another one)
@@ -290,11 +450,22 @@ def evaluate_points(cases, history=True):
     for c in cases:
         out["smsets"].add(json.dumps(c.get("sm"), sort_keys=True) + c["mhsm"])
     pos2 = {i: k for k, i in enumerate(alive)}
+    rerun = []
     for i, c in enumerate(cases):
         r = r1[i]
+        forced = bool(c.get("force"))
+        ftag = ":force" if forced else ""
+        if r.exc and forced:
+            # with force_output nothing inside the domain may be refused at all
+            out["thrown"] += 1
+            out["fails"].append(("%s:force:refused:%s" % (c["basis"], r.exc[0]),
+                                 "refused although force_output is set: %s %s; %s" % (r.exc[0], r.exc[1], brief(c)), {"case": c}))
+            continue
         if r.exc:
             out["thrown"] += 1
             cls = r.exc[0]
+            if cls == "EPhysicalProblem":
+                rerun.append(dict(c, force=1))     # must be constructible with force_output and then reproduce its input
             out["exc"][c["basis"] + ":" + cls] = out["exc"].get(c["basis"] + ":" + cls, 0) + 1
             # every lattice point is inside the documented domain (0 <= mh <= mH, mA, mH+ > 0, |sba| <= 1, tan(beta) > 0,
             # types 1..6): the only legitimate refusal is a tachyonic spectrum of a gauge-basis point, or the rounding
@@ -315,6 +486,35 @@ def evaluate_points(cases, history=True):
         k = pos2[i]
         S2 = None if r2[k].exc else r2[k].S
         p = c["p"]
+        # nothing a constructed model reports may be NaN/inf (with force_output: tachyonic m^2 are reported as sqrt|m^2|)
+        bad = [(tg, nonfinite(Sx)) for tg, Sx in ((c["basis"], S), ("2nd", S2), ("3rd", r3[k].S if k in r3 and not r3[k].exc else None)) if Sx is not None]
+        bad = [(tg, nf) for tg, nf in bad if nf]
+        if bad:
+            tg, nf = bad[0]
+            out["fails"].append(("%s%s:nonfinite:%s" % (c["basis"], ftag, nf[0]),
+                                 "model (%s construction) reports non-finite %s; %s" % (tg, ", ".join(nf), brief(c)), {"case": c}))
+            continue
+        if forced and S[T.PROBLEM] != 0:
+            out["forced_problem"] += 1
+        if c["basis"] == "G" and forced and S[T.PROBLEM] != 0:
+            # genuinely tachyonic gauge-basis point kept alive by force_output: the stored inputs, MW, MZ, Goldstones,
+            # fermions and mixing must still be right; there is no mass-basis input that describes it (no round trip)
+            m2max, m2min = spectrum_scale(S)
+            if m2min > 0 and m2max / m2min <= 1e8:
+                check_common(acc, c, S, "G:force:tachyonic", m2max, m2min)
+            for j in range(7):
+                acc.cmp("stored", "G:force:lambda%d" % (j + 1), abs(S[T.LAM][j] - p[j]), 0.0, "lambda_%d input %r reported %r" % (j + 1, p[j], S[T.LAM][j]))
+            acc.cmp("stored", "G:force:tan_beta", abs(S[T.TB] - p[7]), 1e-13 * p[7], "tan(beta) input %r reported %r" % (p[7], S[T.TB]))
+            acc.cmp("stored", "G:force:m122", abs(S[T.M122] - p[8]), 0.0, "m12^2 input %r reported %r" % (p[8], S[T.M122]))
+            for cls_, v_ in acc.worst.items():
+                out["worst"]["force-tachyonic:" + cls_] = max(out["worst"].get("force-tachyonic:" + cls_, 0.0), v_)
+            seen_ = set()
+            for key, what in acc.fails:
+                if key not in seen_:
+                    seen_.add(key)
+                    out["fails"].append((key, what + "; " + brief(c), {"case": c}))
+            out["keys"].add(("G", "force-tachyonic", c["ytype"], c["ckm"]))
+            continue
         if c["basis"] == "M":
             mh, mH, mA, mHp, sba_in, l6, l7, tb, m122 = p
             m2 = [x * x for x in (mh, mH, mA, mHp, S[T.SM_MW], S[T.SM_MZ])]
@@ -330,8 +530,10 @@ def evaluate_points(cases, history=True):
             acc.cmp("stored", "M:m122", abs(S[T.M122] - m122), 0.0, "m12^2 input %r reported %r" % (m122, S[T.M122]))
             # gauge basis from the reported lambda_1..7: same spectrum
             if S2 is None:
-                if massless and r2[k].exc[0] == "EPhysicalProblem":
+                if massless and not forced and r2[k].exc[0] == "EPhysicalProblem":
                     out["massless_tachyon"] += 1     # massless state: eigenvalue 0 -/+ rounding flagged as tachyon
+                    if not forced:
+                        rerun.append(dict(c, force=1))
                 else:
                     acc.fails.append(("M->G:throws", "model rebuilt from its reported lambda_1..7 is rejected: %s %s" % r2[k].exc))
             else:
@@ -340,8 +542,10 @@ def evaluate_points(cases, history=True):
                 cmp_angle(acc, "M->G", S[T.SBA], S2, mh, mH, R)
                 if k in r3:
                     if r3[k].exc:
-                        if massless and r3[k].exc[0] == "EPhysicalProblem":
+                        if massless and not forced and r3[k].exc[0] == "EPhysicalProblem":
                             out["massless_tachyon"] += 1
+                            if not forced:
+                                rerun.append(dict(c, force=1))
                         else:
                             acc.fails.append(("M->G->M:throws", "mass-basis model rebuilt from the gauge-basis model is rejected: %s %s" % r3[k].exc))
                     else:
@@ -385,6 +589,9 @@ def evaluate_points(cases, history=True):
                 out["worst"][cls] = v
         seen = set()
         for key, what in acc.fails:
+            if forced:
+                key = key.replace(":", ":force:", 1)
+                what += " [force_output]"
             if key in seen:
                 continue
             seen.add(key)
@@ -393,18 +600,61 @@ def evaluate_points(cases, history=True):
         sgn = (S[T.SBA] > 0) - (S[T.SBA] < 0)
         tbc = (S[T.TB] > 1) - (S[T.TB] < 1)
         out["keys"].add((c["basis"], c["ytype"], c["ckm"], sgn, tbc, quad, degenerate,
-                         S[T.MAH1] < S[T.MHH0], S[T.MHM1] < S[T.MHH0], bool(c.get("sm")) or c["mhsm"] != "-"))
+                         S[T.MAH1] < S[T.MHH0], S[T.MHM1] < S[T.MHH0], bool(c.get("sm")) or c["mhsm"] != "-",
+                         c["run"], c.get("force", 0), S[T.PROBLEM] != 0))
+    if rerun:
+        # every point the default configuration refuses with a physical problem is constructed again with
+        # force_output = true and must then reproduce its input (same oracle, same scaled tolerances)
+        uniq, seen_r = [], set()
+        for c in rerun:
+            kk = json.dumps(c, sort_keys=True)
+            if kk not in seen_r:
+                seen_r.add(kk)
+                uniq.append(c)
+        o2 = evaluate_points(uniq, history=False)
+        out["forced_reruns"] += len(uniq)
+        out["forced_problem"] += o2["forced_problem"]
+        out["passes"] += o2["passes"]
+        out["illcond"] += 0
+        out["fails"] += o2["fails"]
+        out["keys"] |= o2["keys"]
+        for cls, v in o2["worst"].items():
+            nm = cls if cls.startswith("force-") else "forced-rerun:" + cls
+            out["worst"][nm] = max(out["worst"].get(nm, 0.0), v)
     return out
 
 
 def brief(c):
     return "%s p=%s type=%s ckm=%d zeta=%s Delta=%s Pi=%s SM=%s mhSM=%s" % (
         c["basis"], ["%g" % x for x in c["p"]], T.TYPES[c["ytype"]], c["ckm"], c["z"], c["D"], c["P"],
-        c.get("sm") or "default", c["mhsm"])
+        c.get("sm") or "default", c["mhsm"]) + " running=%d force_output=%d" % (c["run"], c.get("force", 0)) + (
+        " then set_tan_beta(%s)" % ", ".join("%g" % x for x in c["post"]) if c.get("post") else "")
 
 
 # SM inputs cycled through the core product: default / complete alternate set / only MW, MZ changed
 CORE_SM = [T.SM_BASE, SM_ALT_BASE, dict(T.SM_BASE, mw=78.5, mz=93.0)]
+
+
+CORE_CFG = [(1, 0), (1, 1), (0, 0), (0, 1)]      # (running_couplings, force_output) cycled through the core product
+
+# boundary families: evaluated for both values of force_output and of running_couplings
+BND_MM = [(0.0, 0.0), (0.0, 125.0), (0.0, 1e4), (10.0, 10.0), (125.0, 125.0), (125.0, 126.0), (1e4, 1e4), (10.0, 1e4)]
+BND_AP = [(10.0, 10.0), (300.0, 300.0), (1e4, 1e4), (10.0, 1e4), (1e4, 10.0)]
+
+
+def boundary_product():
+    b = BASES_M[0]
+    for mm in BND_MM:
+        for mA, mHp in BND_AP:
+            for sba in (-1.0, 0.0, 0.3, 1.0):
+                for tb in (0.05, 1.0, 200.0):
+                    for m122 in (0.0, 4e4):
+                        for l67 in ((0.0, 0.0), (3.0, -3.0)):
+                            for run in (1, 0):
+                                for force in (0, 1):
+                                    a = dict(b)
+                                    a.update(mm=mm, mA=mA, mHp=mHp, sba=sba, tb=tb, m122=m122, l6=l67[0], l7=l67[1], run=run, force=force)
+                                    yield a
 
 
 def core_product(full):
@@ -424,6 +674,7 @@ def core_product(full):
                                     a = dict(b)
                                     a.update(mm=mm, mA=mA, mHp=mHp, sba=sba, tb=tb, m122=m122, l6=l6, l7=l7)
                                     a.update(CORE_SM[n % 3])
+                                    a.update(run=CORE_CFG[n % 4][0], force=CORE_CFG[n % 4][1])
                                     n += 1
                                     yield a
 
@@ -445,6 +696,10 @@ def lattice(quick):
     for a in core_product(not quick):
         add(a, "M")
     sizes.append(("M-core-product", len(items), len(items)))
+    n0 = len(items)
+    for a in boundary_product():
+        add(a, "M")
+    sizes.append(("M-boundary-families x force_output x running_couplings", len(items) - n0, len(items) - n0))
     plans = [("all", 2)] if quick else [("non-SM", 3), ("all", 2)]
     for basis, dims0, dims, alpha, bases in (("M", DIMS_M0, DIMS_M, ALPHA_M, BASES_M), ("G", DIMS_G0, DIMS_G, ALPHA_G, BASES_G)):
         for b in bases:
@@ -465,24 +720,41 @@ def run(ctx):
     # strided chunks: every harness process sees all parts of the lattice, i.e. models with
     # different SM inputs in varying order; each chunk is also run in reversed order (bitwise equal)
     chunks = T.strided_chunks(items, 400)
-    tot = dict(n=0, thrown=0, illcond=0, massless_tachyon=0, passes=0)
+    tot = dict(n=0, thrown=0, illcond=0, massless_tachyon=0, forced_reruns=0, forced_problem=0, passes=0)
     worst, exc = {}, {}
     min_smsets = None
     with mp.Pool(min(16, os.cpu_count() or 4)) as pool:
         for ch, o in zip(chunks, pool.imap(evaluate_compact, chunks)):
             min_smsets = len(o["smsets"]) if min_smsets is None else min(min_smsets, len(o["smsets"]))
-            for k in ("n", "thrown", "illcond", "massless_tachyon", "passes"):
+            for k in ("n", "thrown", "illcond", "massless_tachyon", "forced_reruns", "forced_problem", "passes"):
                 tot[k] += o[k]
             for k, v in o["worst"].items():
                 worst[k] = max(worst.get(k, 0.0), v)
             for k, v in o["exc"].items():
                 exc[k] = exc.get(k, 0) + v
-            for key in sorted(o["keys"]):
+            for key in sorted(o["keys"], key=repr):
                 ctx.nontrivial(key)
             for key, what, data in o["fails"]:
                 ctx.fail(key, what, data)
             if ctx.out_of_time("lattice"):
                 break
+        # object state (set_tan_beta sequences)
+        sitems = list(state_items(1 if ctx.quick else 2))
+        nstate, stale = 0, {}
+        for o in pool.imap(evaluate_state, T.strided_chunks(sitems, 60)):
+            nstate += o["n"]
+            tot["passes"] += o["evals"]
+            for k, v in o["worst"].items():
+                worst[k] = max(worst.get(k, 0.0), v)
+            for k, v in o["stale"].items():
+                stale[k] = stale.get(k, 0) + v
+            for key in sorted(o["keys"], key=repr):
+                ctx.nontrivial(key)
+            for key, what, data in o["fails"]:
+                ctx.fail(key, what, data)
+    ctx.note("state_variants_checked", nstate)
+    ctx.note("state_stale_higgs_sector_observations", stale)
+    print("[C08] object state: %d constructed points x 5 set_tan_beta sequences = %d variants; not re-solved Higgs sector observed (observation, outside the statement of C08): %s" % (len(sitems), nstate, stale))
     ctx.evals(tot["passes"])
     for it in items[:2] + items[len(items) // 2:len(items) // 2 + 2] + items[-2:]:
         ctx.sample(brief(from_compact(it)))
@@ -496,11 +768,16 @@ def run(ctx):
     print("[C08] refusals: gauge-basis tachyons %d (legitimate); mass-basis mh = 0 flagged tachyonic by rounding (pass 1-3) %d; every other refusal is a violation"
           % (exc.get("G:EPhysicalProblem", 0), tot["massless_tachyon"]))
     ctx.note("mass_basis_mh=0_refused_as_tachyon_by_rounding", tot["massless_tachyon"])
+    ctx.note("refused_points_rerun_with_force_output", tot["forced_reruns"])
+    ctx.note("force_output_models_with_problem_flag", tot["forced_problem"])
+    print("[C08] configuration: running_couplings and force_output are lattice dimensions; %d refused points re-run with force_output (must reproduce their input); %d force_output models carried a problem flag"
+          % (tot["forced_reruns"], tot["forced_problem"]))
     print("[C08] worst error/tolerance per clause: %s" % {k: float("%.3g" % v) for k, v in sorted(worst.items())})
     if surv < 0.5:
         ctx.cap("less than half of the lattice accepted by the constructor")
     ctx.assumptions += [
         "tolerance on squared masses 2e-10 x m^2_max absolute (= 1e-10 x m^2_max/m^2 relative on the mass), m^2 over {mh,mH,mA,mH+,MW,MZ}; on the angle 1e-10 x m^2_max/m^2_min(>0) x (mH^2+mh^2)/(mH^2-mh^2)",
+        "thdm::Config (running_couplings, force_output) is part of the alphabet: both are deviation dimensions, the core product cycles through all four settings, the boundary families (mh = 0, mh == mH, sin(beta-alpha) = +-1, degenerate and extreme masses, extreme tan(beta)) are run for all four; every point refused with EPhysicalProblem is constructed again with force_output and must reproduce its input; no reported value may be non-finite",
         "a constructor exception is accepted only as EPhysicalProblem on a gauge-basis point (tachyon) or on a mass-basis point with mh = 0 (rounding of the massless state); any other refusal of a lattice point is a violation",
         "angle clause skipped at exactly mh == mH; (sin,cos) ~ (-sin,-cos) identified when |cos(beta-alpha)| < 1e-7",
         "lambda_1..5 after the round trip compared with tolerance 1e-10 x sum of |terms| of the closed-form inversion",
@@ -521,8 +798,10 @@ def replay(ctx, path):
     d = json.load(open(path))
     c = d["data"]["case"]
     cases = [d["data"]["other"], c] if d["data"].get("other") else [c]
-    o = evaluate_points(cases)
-    hit = [f for f in o["fails"] if f[0] == d["key"]] or o["fails"]
+    o = evaluate_state([dict(c, post=[])]) if c.get("post") else evaluate_points(cases)
+    import fnmatch
+    fails = [f for f in o["fails"] if f[0] == d["key"] or not any(fnmatch.fnmatchcase(f[0], fd["key"]) for fd in ctx.findings)]
+    hit = [f for f in fails if f[0] == d["key"]] or fails
     for key, what, _ in hit:
         print("replay: [%s] %s" % (key, what))
     if hit:
